@@ -66,6 +66,7 @@ func (v *VM) Abort() {
 
 // Run starts the execution.
 func (v *VM) Run() (err error) {
+	verifAt(verifVMRunEnter, nil, v)
 	// reset VM states
 	v.sp = 0
 	v.curFrame = &(v.frames[0])
@@ -89,13 +90,16 @@ func (v *VM) Run() (err error) {
 				v.curFrame.fn.SourcePos(v.curFrame.ip - 1))
 			err = fmt.Errorf("%w\n\tat %s", err, filePos)
 		}
+		verifAt(verifVMRunExit, nil, v)
 		return err
 	}
+	verifAt(verifVMRunExit, nil, v)
 	return nil
 }
 
 func (v *VM) run() {
 	for atomic.LoadInt64(&v.aborting) == 0 {
+		verifAt(verifVMStep, nil, v)
 		v.ip++
 
 		switch v.curInsts[v.ip] {
